@@ -943,9 +943,19 @@ def run_real(cfg):
         populational = cfg['optimiser'] in optrun.POPULATIONAL
         pops = rec['pops']
         nog = cfg.get('num_of_generations')
-        # hard cap: a run whose limits do not fire is stopped (and reported) instead of running on
-        cap = (nog + 4) if nog is not None else 400
+        # a run whose limits do not fire is stopped (and reported) instead of running on.  Only what the property
+        # forbids is flagged: a COUNT cap exists only where a count limit is configured (num_of_generations + 4);
+        # with time limits only, a step that is STARTED more than 10 s after the configured timeout stops the run
+        # (any number of fast steps before the time limit is legitimate, e.g. a population that collapsed to empty)
+        cap = (nog + 4) if nog is not None else None
+        tmo_s = None if cfg.get('timeout_min') is None else max(cfg['timeout_min'], 0) * 60.0
         rec['completed'] = 0
+
+        def step_allowed():
+            if nog is None and tmo_s is not None and time.time() - t_opt[0] > tmo_s + 10.0:
+                rec['stopped_by'] = 'a step started %.0f s after the start, timeout %.1f s' % (time.time() - t_opt[0], tmo_s)
+                raise RunTimeout()
+        t_opt = [time.time()]
 
         def cb(population, optimiser):
             keeper = optimiser.generations
@@ -962,7 +972,7 @@ def run_real(cfg):
                          'minutes': _minutes(optimiser.timer.spent_time),
                          'stagdur': [int(round(keeper.stagnation_time_duration * 60)), 60],
                          'pop_size': int(optimiser.graph_optimizer_params.pop_size)})
-            if sum(1 for p in pops if p['label'] == '') > cap:
+            if cap is not None and sum(1 for p in pops if p['label'] == '') > cap:
                 rec['stopped_by'] = 'hard cap of %d evolved populations' % cap
                 raise RunTimeout()
         opt.set_iteration_callback(cb)
@@ -970,6 +980,7 @@ def run_real(cfg):
             inner = opt._evolve_population
 
             def counted(evaluator):
+                step_allowed()
                 rec['started'] += 1
                 try:
                     result = inner(evaluator)
@@ -985,13 +996,15 @@ def run_real(cfg):
             inner_gen = opt._generate_new_individual
 
             def counted_gen():
+                step_allowed()
                 rec['started'] += 1
-                if rec['started'] > cap:
+                if cap is not None and rec['started'] > cap:
                     rec['stopped_by'] = 'hard cap of %d iterations' % cap
                     raise RunTimeout()
                 return inner_gen()
             opt._generate_new_individual = counted_gen
         t0 = time.time()
+        t_opt[0] = t0
         rec['limit_s'] = run_limit_s(cfg)
         old_handler = signal.signal(signal.SIGALRM, _on_alarm)
         signal.setitimer(signal.ITIMER_REAL, rec['limit_s'])
@@ -1059,14 +1072,26 @@ def run_case(rec):
     cfg = rec['cfg']
     populational = cfg['optimiser'] in optrun.POPULATIONAL
     adaptive = cfg.get('scheme') == 'parameter_free' and cfg['optimiser'] in ('evo', 'surrogate')
+    # a very long run (time limits only, e.g. hundreds of empty populations per second): only the last KEEP_POPS
+    # recorded populations are listed, with the counters / last clock restart before them; the clauses are then
+    # judged on the listed part (a generation limit is never configured for such runs: count cap num_of_generations + 4)
+    all_pops = rec['pops']
+    skip = max(0, len(all_pops) - KEEP_POPS) if populational else 0
+    skipped, listed = all_pops[:skip], all_pops[skip:]
+    skip_gen = skipped[-1]['gen'] if skipped else 0
+    skip_stag = skipped[-1]['stag'] if skipped else 0
+    restart0 = next((p['minutes'] for p in reversed(skipped) if p['gen'] == 1 or p['stag'] == 0), [0, 1])
+    skipped_evolved = sum(1 for p in skipped if p['label'] == '')
+    rec = dict(rec, pops=listed, started=rec['started'] - skipped_evolved,
+               evolved_sizes=rec['evolved_sizes'][skipped_evolved:] if populational else rec['evolved_sizes'])
     pops = c_list(['{| p_label := %s; p_size := %s; p_gen := %s; p_stag := %s; p_minutes := %s; p_stagdur := %s; p_popsize := %s |}' % (
         LABEL.get(p['label'], 'POtherLabel'), c_nat(p['size']), c_nat(p['gen']), c_nat(p['stag']), fr(p['minutes']),
         fr(p['stagdur']), c_Z(p['pop_size'])) for p in rec['pops']], 'opop')
-    return ('{| r_populational := %s; r_lim := %s; r_maxpop := %s; r_adaptive := %s; r_ok := %s; r_timed_out := %s; r_limit_raise := %s; r_pops := %s; '
+    return ('{| r_populational := %s; r_lim := %s; r_maxpop := %s; r_adaptive := %s; r_ok := %s; r_timed_out := %s; r_limit_raise := %s; r_pops := %s; r_skip_gen := %s; r_skip_stag := %s; r_restart0 := %s; '
             'r_started := %s; r_broke := %s; r_evolved_sizes := %s; r_iters := %s; r_call_minutes := %s; '
             'r_end_minutes := %s; r_wall_ms := %s |}') % (
         c_bool(populational), limits_coq(*cfg_limits(cfg)), oz(cfg.get('max_pop_size')), c_bool(adaptive),
-        c_bool(rec['outcome'] == 'ok'), c_bool(rec['outcome'] == 'timeout'), c_bool(bool(rec.get('limit_raise'))), pops, c_nat(rec['started']), c_bool(rec['broke']),
+        c_bool(rec['outcome'] == 'ok'), c_bool(rec['outcome'] == 'timeout'), c_bool(bool(rec.get('limit_raise'))), pops, c_nat(skip_gen), c_nat(skip_stag), fr(restart0), c_nat(rec['started']), c_bool(rec['broke']),
         c_list([c_nat(n) for n in rec['evolved_sizes']], 'nat'), c_nat(rec['iters']),
         c_list([fr(m) for m in rec['call_minutes']], 'Q'), fr(rec['end_minutes']), c_Z(rec['wall_ms']))
 
@@ -1182,6 +1207,7 @@ def make_configs(ctx):
 RCHECK_NAMES = ['agree', 'accepts', 'generations', 'stagnation', 'time', 'zero_budget', 'max_pop', 'adaptive', 'terminates',
                 'stagnation_time']
 MAX_TIMEOUTS = 3
+KEEP_POPS = 150
 
 
 def judge_run(ctx, group, rec, flags):
